@@ -149,7 +149,9 @@ CLAIMS = {
              "send_request(0, pgn, dest) becomes ONE J1939-21 frame priority 6 | 0xEA | dest | own address; at a CA the request callbacks run "
              "with exactly (sa, dest, pgn) iff the CA is operational AND owns dest (or dest is global) AND pgn is not 0xEE00, for 0xEE00 such a CA "
              "answers with its address-claimed frame, every other CA does nothing; the J1939-21 layer passes a request on iff its destination is "
-             "global or locally accepted and never creates state or transmits.",
+             "global or locally accepted and never creates state or transmits; composed END TO END (c14_request_end_to_end): requesting CA -> "
+             "the one frame -> notify() of any receiving stack -> every CA behind it runs its callbacks with exactly (requester, destination, "
+             "requested PGN) iff operational and addressed.",
         note="data_page = 0 for the request frame's own PGN (scope note in DESIGN §8 C14). Tie: correspondence (CA) + Dll21 correspondence; "
              "oracle: requester and 1-3 responder CAs in every claim state on real stacks.",
         technique="Lean 4 codec + decision-logic theorems over regenerated leaves and hand model; correspondence; dispatch oracle",
